@@ -264,6 +264,9 @@ macro_rules! value_traits {
     };
 }
 value_traits!(Tracked, |x: &Tracked| x.read().1 as u64);
+/// `Arc::<Tracked>::default()`: a fixed identity outside the range the generators use
+pub const DEFAULT_ID: u32 = 4_000_000;
+impl Default for Tracked { fn default() -> Self { Tracked::new(DEFAULT_ID, 0) } }
 value_traits!(TrackedB, |x: &TrackedB| x.read().1);
 
 /// Trait for `dyn` payloads.
